@@ -212,7 +212,7 @@ func (pm *pairMon) invariant(ps *pairState, first uint64, where string, detail m
 		}
 	}
 	chain := pm.src.Node.Chain
-	if has && first > 0 {
+	if has && first > 0 && !pm.noContent {
 		for n := first; n <= pos; n++ {
 			got := append([]string(nil), ps.byBlock[n]...)
 			sort.Strings(got)
